@@ -108,6 +108,12 @@ def instantiate(blocks, toks, v, rng):
     return toksb, exp, offs, len(header)
 
 
+def _close(o2):
+    fh = getattr(o2, "_fileh", None)
+    if fh is not None:
+        fh.close()
+
+
 def subsets_part(run, np, op2, res, files, variants, rng, quick):
     """spec section 'Named subsets': rdop2mats(names) / rdmats(names) with exact names and prefix* patterns in any order return
     exactly the data blocks some pattern matches, in file order (table exported by TLC for every two-matrix file x pattern list)"""
@@ -142,7 +148,7 @@ def subsets_part(run, np, op2, res, files, variants, rng, quick):
                     try:
                         got = list(o2.rdop2mats(pats))
                     finally:
-                        o2._fileh.close()
+                        _close(o2)
                     got2 = list(op2.rdmats(path, pats))
                     if got != want:
                         msg = "rdop2mats(%r) on a file with %r returned %r, the patterns select %r" % (pats, v["names"], got, want)
@@ -244,13 +250,12 @@ def run_op2(run):
                                 if len(hd) != len(pe) or any(list(h[0]) != e[0] or h[1] != e[1] for h, e in zip(hd, pe)):
                                     msg = "rdop2tabheaders of %s: %r" % (nm, hd)
                                     break
-                            pos_after = o2._fileh.tell()
+                            fh_ = getattr(o2, "_fileh", None)         # private: where the reader stands after a block
                             stop = [b for a, b, t in got if True][exp["names"].index(nm)]
-                            if pos_after != stop:
-                                msg = "after reading %s the reader is at byte %d, next block starts at %d" % (nm, pos_after, stop)
-                                break
+                            if fh_ is not None and fh_.tell() != stop:
+                                run.deviation("Op2 (reader position)", "after reading %s the reader is at byte %d, next block starts at %d" % (nm, fh_.tell(), stop))
                 finally:
-                    o2._fileh.close()
+                    _close(o2)
             except Exception as ex:
                 msg = "OP2 reader raised %r" % ex
             finally:
@@ -277,7 +282,7 @@ def run_op2(run):
             o2 = op2.OP2(f)
             o2.directory(verbose=False)
             starts, stops = [int(x) for x in o2.dbstarts], [int(x) for x in o2.dbstops]
-            o2._fileh.close()
+            _close(o2)
         except Exception as ex:
             run.violation("directory() of shipped file raised %r" % ex, {"file": base}, {"kind": "op2"})
             continue
